@@ -41,7 +41,7 @@ TR = 'chainables.transform'
 
 
 def run(ctx: Ctx):
-  for r in (r1, r2, r3, r4, r5, r6, r9, r11, r12, r13, r14, r15, r16, r17, r19, r20):
+  for r in (r21, r22, r1, r2, r3, r4, r5, r6, r9, r11, r12, r13, r14, r15, r16, r17, r19, r20):
     ctx.guard(r)
   from mlmverif.props import c09
   ctx.include('R-C12-10', 'error skipping configured on a data source survives a'
@@ -1126,11 +1126,84 @@ def kill_any(nd, env) -> bool:
   return any(isinstance(y, ast.Name) and y.id in env for t in tg for y in ast.walk(t))
 
 
+def r21(ctx: Ctx):
+  rule = 'R-C12-21'
+  ctx.rule(rule, '"error skipping drops only failing elements": the skipping layers catch the SKIPPABLE types only (ValueError,'
+           ' TypeError) and rely on the operator wrapping whatever its function raised into one of them. In'
+           ' TreeFn._maybe_call_fn every way out of the broad handler is `raise <ValueError|TypeError>(...) from e` — no bare'
+           ' `raise` / `raise e`, with or without a flag: a function that fails with StopIteration would otherwise END the'
+           ' `map` it runs under (every later element is lost, silently), one that fails with KeyError / ZeroDivisionError'
+           ' is not skipped at all')
+  fi = ctx.repo.func(TF, 'TreeFn._maybe_call_fn')
+  n = 0
+  for h in ast.walk(fi.node):
+    if not (isinstance(h, ast.ExceptHandler) and (h.type is None or unparse(h.type) in ('Exception', 'BaseException'))):
+      continue
+    for r_ in ast.walk(h):
+      if not isinstance(r_, ast.Raise):
+        continue
+      n += 1
+      wraps = (isinstance(r_.exc, ast.Call) and unparse(r_.exc.func) in ('ValueError', 'TypeError') and r_.cause is not None)
+      what = 'TreeFn._maybe_call_fn: a failure of the function leaves as a skippable error chained to its cause'
+      if wraps:
+        ctx.ok(rule, fi, what, r_)
+      else:
+        ctx.fail(rule, fi, what,
+                 f'`{unparse(r_)}` lets the function\'s own exception type through: the skipping layers only catch ValueError /'
+                 ' TypeError — a StopIteration from the function ends the stream silently, any other type aborts it although'
+                 ' skipping is on', node=r_)
+  ctx.floor(rule, 1, n)
+
+
+def r22(ctx: Ctx):
+  rule = 'R-C12-22'
+  ctx.rule(rule, '"keeps every remaining element ... aligned with its own inputs": the pass-through operators (filter, sink) hand'
+           ' on their INPUT elements, so they need each input next to the outcome of processing it — they get both from'
+           ' the shared helper `processed_with_inputs`, which draws the input itself and turns an unreadable record into a'
+           ' skip marker. The `iterate` method of an operator never loops over its `input_iterator` parameter directly: an'
+           ' error of the upstream would be raised inside the operator\'s own generator and terminate it — the next'
+           ' operator skips that error and then meets a finished stream: everything behind the failing record is lost')
+  mi = ctx.repo.module(TF)
+  n = 0
+  for ci in mi.classes.values():
+    fi = ci.methods.get('iterate')
+    if fi is None:
+      continue
+    ps = fi.params()[1:]
+    if not ps:
+      continue
+    src = ps[0]
+    n += 1
+    bad = None
+    for x in ast.walk(fi.node):
+      it = x.iter if isinstance(x, (ast.For, ast.AsyncFor, ast.comprehension)) else x.value if isinstance(x, ast.YieldFrom) else None
+      if it is None:
+        continue
+      while isinstance(it, ast.Call) and unparse(it.func) in ('iter', 'enumerate') and it.args:
+        it = it.args[0]
+      if isinstance(it, ast.Name) and it.id == src:
+        bad = x
+    what = f'{ci.name}.iterate: the input is drawn by processed_with_inputs, not by a loop of the operator'
+    if bad is not None:
+      ctx.fail(rule, fi, what,
+               f'{ci.name}.iterate iterates `{src}` itself (`{unparse(bad)[:60]}`): a skippable error of the upstream surfaces inside this'
+               ' generator and finishes it; downstream skipping swallows the error and the rest of the stream is neither'
+               ' processed nor delivered', node=bad)
+    else:
+      ctx.ok(rule, fi, what, fi.node)
+  ctx.floor(rule, 2, n)
+
+
 from mlmverif.selfcheck import B, OK  # noqa: E402
 
 _F = 'chainables/tree_fns.py'
 _U = 'utils/iter_utils.py'
 VARIANTS = [
+    B('call-wrapper-reraises-raw-when-skipping', 'chainables/tree_fns.py',
+      "    except Exception as e:\n      keys = [tree.Key().at(i) for i in range(len(fn_inputs))]", "    except Exception as e:\n      if self.ignore_error:\n        raise\n      keys = [tree.Key().at(i) for i in range(len(fn_inputs))]", 'R-C12-21'),
+    B('sink-loops-over-its-input', 'chainables/tree_fns.py',
+      "      it_ = iter_utils.processed_with_inputs(\n          self._iterate, iter(input_iterator), ignore_error=self.ignore_error\n      )\n      yield from (elem for _, elem in it_)\n    finally:\n      self._actual_fn.close()",
+      "      for elem in input_iterator:\n        try:\n          self._maybe_call_fn(self._get_inputs(elem))\n        except (ValueError, TypeError):\n          if not self.ignore_error:\n            raise\n          continue\n        yield elem\n    finally:\n      self._actual_fn.close()", 'R-C12-22'),
     B('revert-put-inside-the-skipping-try', 'utils/iter_utils.py',
       "      fetched = False\n      try:\n        value = next(iterator)\n        fetched = True\n        self.put(value)",
       "      try:\n        self.put(next(iterator))", 'R-C12-20',
